@@ -84,6 +84,15 @@ class Session:
         self.obs.append(ob)
         return ob
 
+    def bounded_check(self, id, what, bound, cases, failures, tool='seeded random sampling of the real code'):
+        """record a bounded stand-in (never counted as proved). failures: list of dict(input=..., observed=...)"""
+        self.bounded.append(dict(id=id, what=what, bound=bound, cases=cases, failures=len(failures), tool=tool, label='bounded'))
+        for k, f in enumerate(failures[:3]):
+            ob = Ob(self.prop + '/' + id + '/bounded-counterexample#%d' % k, [], None, kind='bounded',
+                    replay=lambda m, f=f: dict(reproduced=True, **f))
+            ob.status, ob.backend, ob.detail, ob.model = 'refuted', 'bounded', str(f)[:500], {'vars': {}, 'input': f}
+            self.obs.append(ob)
+
     def canary(self, id, hyps):
         """vacuity guard: hyps must be satisfiable (goal False must be refuted)"""
         return self.add(id + '/canary', hyps, tm.FALSE, kind='canary', expect='refuted')
@@ -198,6 +207,9 @@ class Session:
                 continue
             if ob.kind == 'cover':
                 continue
+            if ob.kind == 'bounded':
+                failures.append(ob)
+                continue
             nob += 1
             b = by_backend.setdefault(ob.backend or 'none', [0, 0.0])
             b[0] += 1
@@ -275,7 +287,7 @@ class Session:
             known_findings_hit=[dict(obligation=ob.id, what=kf['what']) for ob, kf in known_hits],
             undischarged=[ob.id for ob in failures],
             samples=samples or self._samples(),
-            clauses=sorted({ob.clause for ob in self.obs if ob.kind not in ('canary', 'cover')}),
+            clauses=sorted({ob.clause for ob in self.obs if ob.kind not in ('canary', 'cover', 'bounded')}),
             slowest=[dict(id=ob.id, seconds=round(ob.seconds, 2), backend=ob.backend) for ob in sorted(self.obs, key=lambda o: -o.seconds)[:8]],
             notes=self.notes,
         )
@@ -359,7 +371,7 @@ def check_ledger(prop, obs):
     with open(p) as f:
         led = json.load(f)
     want = set(led.get(prop, []))
-    have = {ob.clause for ob in obs if ob.kind not in ('canary', 'cover')}
+    have = {ob.clause for ob in obs if ob.kind not in ('canary', 'cover', 'bounded')}
     return sorted(want - have)
 
 
@@ -369,6 +381,6 @@ def update_ledger(prop, obs):
     if os.path.exists(p):
         with open(p) as f:
             led = json.load(f)
-    led[prop] = sorted({ob.clause for ob in obs if ob.kind not in ('canary', 'cover')})
+    led[prop] = sorted({ob.clause for ob in obs if ob.kind not in ('canary', 'cover', 'bounded')})
     with open(p, 'w') as f:
         json.dump(led, f, indent=1, sort_keys=True)
